@@ -205,6 +205,13 @@ impl FromStr for Cx {
     }
 }
 
+/// An inherent associated function of the same name and signature with another rule: the derive must go through the
+/// `FromStr` trait (`<Cx as FromStr>::from_str`), which is what `s.parse::<Cx>()` — the reference — does.
+impl Cx {
+    #[allow(clippy::should_implement_trait)]
+    pub fn from_str(s: &str) -> Result<Cx, CxErr> { Ok(Cx(s.len() as u32)) }
+}
+
 /// a generic wrapper that is `FromStr` whenever its parameter is (newtypes over `Wrap<T>`)
 #[derive(Debug, PartialEq, Clone)]
 pub struct Wrap<T>(pub T);
